@@ -27,6 +27,7 @@ def plan(tier, seed):
     for v in tables.versions():
         specs.append({'kind': 'fields', 'version': v})
         specs.append({'kind': 'components', 'version': v})
+    specs += [{'kind': 'cross', 'part': p, 'parts': 4} for p in range(4)]
     return specs
 
 
@@ -150,6 +151,48 @@ def leaf_component_check(core, v, seg, row, rec, k):
         rec.violation('raised:%s' % type(e).__name__, case, {'exc': repr(e)[:200]}, row=rowkey)
 
 
+def long_name_signature(v, seg):
+    rows = tables.segments(v).get(seg) or []
+    return tuple(sorted((r.long_name, r.num) for r in rows if r.long_name))
+
+
+def run_cross(spec, rec):
+    """segments whose long names sit at different numbers in different versions, swept version after version in ONE
+    process (ascending for half of them, descending for the others): what was resolved for one version must not answer
+    for another"""
+    from hl7apy import core
+    vs = tables.versions()
+    allsegs = sorted({s for v in vs for s, rows in tables.segments(v).items() if rows})
+    mine = [s for i, s in enumerate(allsegs) if i % spec['parts'] == spec['part']]
+    k = 0
+    for seg in mine:
+        present = [v for v in vs if tables.segments(v).get(seg)]
+        if len({long_name_signature(v, seg) for v in present}) < 2:
+            continue
+        order = present if (len(seg) + ord(seg[0])) % 2 else present[::-1]
+        rec.count('cross_version_segments')
+        for v in order:
+            rows = tables.segments(v)[seg]
+            for row in rows:
+                if not row.ok or (seg == 'MSH' and row.num in (1, 2)):
+                    continue
+                k += 1
+                rowkey = '%s|%s|%s' % (v, seg, row.name)
+                case = {'kind': 'cross', 'version': v, 'segment': seg, 'row': row.name, 'order': order, 'k': k}
+                text, _, _ = c02.field_witness(v, row)
+                alias_check(lambda: core.Segment(seg, version=v), core.Segment, row, rows, text, rec, rowkey, case, k)
+            # a field number another version defines and this one does not must stay unknown here
+            nums = {r.num for r in rows}
+            for ov in present:
+                extra = [r for r in tables.segments(ov)[seg] if r.num not in nums]
+                if extra and rows[-1].datatype != 'varies':
+                    negative(core.Segment(seg, version=v), extra[-1].name.lower(), rec,
+                             {'kind': 'cross-negative', 'version': v, 'segment': seg, 'order': order},
+                             '%s|%s' % (v, seg), 'field-number-of-another-version')
+                    break
+    rec.sample({'kind': 'cross', 'segments': mine[:5]})
+
+
 def run_fields(spec, rec):
     from hl7apy import core
     v = spec['version']
@@ -164,6 +207,9 @@ def run_fields(spec, rec):
             k += 1
             rowkey = '%s|%s|%s' % (v, seg, row.name)
             case = {'kind': 'field', 'version': v, 'segment': seg, 'row': row.name, 'k': k}
+            if not row.ok and 'does not reference' in row.why:
+                rec.violation('table-row-references-another-entry', case, {'why': row.why}, row=rowkey)
+                continue
             if not row.ok:
                 rec.evaluation((rowkey, 'malformed'))
                 try:
@@ -223,6 +269,9 @@ def run_components(spec, rec):
             rowkey = '%s|%s|%s' % (v, dt, crow.name)
             case = {'kind': 'component', 'version': v, 'host': host, 'row': crow.name, 'k': k}
             if not crow.ok:
+                if 'does not reference' in crow.why:
+                    # the row is wired to another entry: its long name / datatype are those of that entry
+                    rec.violation('table-row-references-another-entry', case, {'why': crow.why}, row=rowkey)
                 continue
             val = gen.witness(v, crow.datatype if crow.kind == 'leaf' else c02._first_leaf_dt(v, crow.datatype))
             if crow.kind == 'sequence':
@@ -282,6 +331,13 @@ def run_components(spec, rec):
                     negative(f, oc.name.lower(), rec, case, '%s|%s' % (v, dt), 'component-of-another-datatype')
             negative(f, '%s_%d' % (host.lower(), len(comps) + 1), rec, case, '%s|%s' % (v, dt),
                      'positional-path-beyond-datatype')
+            # a path with more levels than component/sub-component designates nothing
+            cx = [c for c in comps if c.ok and c.kind == 'sequence' and c.card[1] != 0 and
+                  tables.components(v, c.datatype)]
+            if cx:
+                for tail in ('1', 'x'):
+                    negative(core.Field(host, version=v), '%s_%d_1_%s' % (host.lower(), cx[0].num, tail), rec, case,
+                             '%s|%s' % (v, dt), 'positional-path-with-too-many-levels')
             # the positional path of ANOTHER field, used on its owner first (a shared path cache would then answer)
             if prev_host and prev_host != host:
                 owner = core.Field(prev_host, version=v)
@@ -299,10 +355,13 @@ def run_components(spec, rec):
 
 
 def run_shard(spec, rec):
-    {'fields': run_fields, 'components': run_components}[spec['kind']](spec, rec)
+    {'fields': run_fields, 'components': run_components, 'cross': run_cross}[spec['kind']](spec, rec)
 
 
 def replay(case, rec):
+    if case['kind'] in ('cross', 'cross-negative'):
+        run_cross({'part': 0, 'parts': 1}, rec)
+        return
     run_shard({'kind': 'fields' if case['kind'] in ('field', 'negative') and 'segment' in case else 'components',
                'version': case['version']}, rec)
 
